@@ -60,15 +60,15 @@ theorem init_toList_length (m : OutMsg) : m.init.toList.length ≤ 1 := by
   cases m.init <;> simp
 
 /-- the builder returns the written-out layout -/
-theorem internalMsg_ok (m : OutMsg) (hh : m.dest.hash.length = 32) (ha : m.amount < 2 ^ 64) :
+theorem internalMsg_ok (m : OutMsg) (hh : m.dest.hash.length = 32) (ha : m.amount < 2 ^ 64) (hx : m.extra = []) :
     internalMsg m = .ok (internalLayout m) := by
   have ht : m.dest.hash.take 32 ++ List.replicate (32 - m.dest.hash.length) 0 = m.dest.hash := by
     rw [hh, List.take_of_length_le (by omega)]; simp
   have h8 := byteLen_u64 m.amount ha
   have hw : (intToBits 8 (toI8 m.dest.workchain)).length = 8 := by simp [intToBits]
   unfold internalMsg internalLayout
-  rw [ht]
-  simp only [bind, Outcome.bind, pure]
+  rw [ht, hx]
+  simp only [bind, Outcome.bind, pure, writeExtra, List.isEmpty_nil, ↓reduceIte]
   rw [CellB.write_ok _ _ (by simp [CellB.empty])]
   simp only []
   rw [CellB.write_ok _ _ (by simp [CellB.empty])]
@@ -156,7 +156,7 @@ theorem decodeInternal_layout (m : OutMsg) (hh : m.dest.hash.length = 32) (ha : 
     decodeInternal (internalLayout m) =
       .ok { bounce := m.bounce, dest := some (bitsToInt (intToBits 8 (toI8 m.dest.workchain)), bytesToBits m.dest.hash),
             amount := m.amount, hasInit := m.init.isSome, init := m.initRead,
-            body := match m.body with | some x => .ordinary x.bits x.refs | none => .ordinary [] [] } := by
+            body := match m.body with | some x => .ordinary x.bits x.refs | none => .ordinary [] [], extra := [] } := by
   unfold decodeInternal
   rw [if_neg (by simp [internalLayout, Cell.ordinary, Cell.ty, tyLibrary]), if_neg (by omega)]
   have hw : (intToBits 8 (toI8 m.dest.workchain)).length = 8 := by simp [intToBits]
@@ -173,7 +173,7 @@ theorem decodeInternal_layout (m : OutMsg) (hh : m.dest.hash.length = 32) (ha : 
   rw [CellR.readBits_append _ _ _ 256 hA]
   simp only []
   rw [readGrams_gramsBits _ (by omega)]
-  simp only [List.cons_append, List.nil_append, CellR.readBit_cons, failIf, Bool.false_eq_true, ↓reduceIte]
+  simp only [List.cons_append, List.nil_append, readExtra, CellR.readBit_cons, Outcome.bind, Bool.false_eq_true, ↓reduceIte]
   rw [readGrams_gramsBits _ h0]
   simp only []
   rw [readGrams_gramsBits _ h0]
